@@ -2,7 +2,7 @@
 
 from __future__ import annotations
 
-from ..rules import commute, structure
+from ..rules import commute, expressions, structure
 from .common import new_run
 
 LEVEL = "other"
@@ -33,4 +33,6 @@ def check(model, tier):
     commute.r04_1_matrix(ctx)
     commute.r04_2_failure_hands_back(ctx)
     commute.r04_3_moved_stay_wellformed(ctx)
+    commute.r04_4_set_formulas(ctx)
+    expressions.r13_4_required_columns(ctx, rule="R04.5")
     return run
